@@ -1,4 +1,5 @@
 import PanderaModel.Infer
+import PanderaModel.Lemmas.Round
 import PanderaModel.Spec
 import PanderaModel.Generated.InferStats
 /-!
@@ -277,6 +278,23 @@ theorem float_bounds_accept (conv : Int → Int) (mono : ∀ a b, a ≤ b → co
     ∀ k ∈ ks, conv lo ≤ conv k ∧ conv k ≤ conv hi := by
   intro k hk
   exact ⟨mono _ _ ((minKey_spec _ _ hlo).2 k hk), mono _ _ ((maxKey_spec _ _ hhi).2 k hk)⟩
+
+/-- `float()` itself — IEEE-754 binary64, round to nearest, ties to even, as modelled by `roundF64`
+and compared with Python's `float` by the harness on every run — **is** monotone
+(`Lemmas/Round.lean`: the rounding is monotone on each grid `2 ^ e`, grid points are fixed, and the
+grids of neighbouring bit lengths meet in a power of two lying on both).  So for integers of any
+size, the inferred bounds `float(min)` and `float(max)` accept every element under the comparison
+numpy performs (`float(x) >= float(min)`, `float(x) <= float(max)`): no hypothesis is left. -/
+theorem float_bounds_accept_binary64 (ks : List Int) (lo hi : Int)
+    (hlo : minKey ks = some lo) (hhi : maxKey ks = some hi) :
+    ∀ k ∈ ks, roundF64 lo ≤ roundF64 k ∧ roundF64 k ≤ roundF64 hi :=
+  float_bounds_accept roundF64 (fun _ _ h => roundF64_mono h) ks lo hi hlo hhi
+
+theorem roundF64_monotone (a b : Int) (h : a ≤ b) : roundF64 a ≤ roundF64 b := roundF64_mono h
+
+/-- non-vacuity beyond 2^53: 2^53 + 1 rounds down to 2^53 (tie to even), 2^53 + 3 rounds up to 2^53 + 4 -/
+example : roundF64 (2 ^ 53 + 1) = 2 ^ 53 ∧ roundF64 (2 ^ 53 + 3) = 2 ^ 53 + 4 ∧ roundF64 (-(2 ^ 53 + 1)) = -(2 ^ 53) := by
+  decide
 
 /-! ## per-run obligations: the model's inference is the code's -/
 
